@@ -347,6 +347,21 @@ def parse_file(lines, fname, pkg, sf=None):
         elif kind == 'assume':
             m = re.match(r'^([A-Za-z_][A-Za-z0-9_.\-]*)\s*:\s*(.*)$', text)
             sf.assumes.append((m.group(1), m.group(2)))
+        elif kind == 'lemma':
+            c = Clause('lemma', text, ln, fname)
+            t = text
+            m = TAGS.match(t)
+            if m:
+                c.tags = [x.strip() for x in m.group(1).split(',') if x.strip()]
+                t = t[m.end():]
+            m = LABEL.match(t)
+            if m:
+                c.label = m.group(1)
+                t = t[m.end():]
+            c.expr = parse_expr(t)
+            c.etext = t
+            c.pkg = pkg
+            sf.lemmas.append(c)
         elif kind == 'func':
             cur = Contract(text.strip(), fname, ln)
             cur.pkg = pkg
